@@ -774,6 +774,16 @@ func c16R4(c *Ctx) {
 		c.Check(cr != nil, FuncName(reset), p.Pos(reset.Pos()), "reset-cache:"+tn, "Reset resets the cache", "Reset does not reset the cached counters")
 		deletes := false
 		persists := false
+		// a removal step extracted into a helper method of the store counts as well
+		for _, cl := range Calls(reset) {
+			if cal := cl.Common().StaticCallee(); cal != nil && cal != refresh && p.InModule(cal) && fnPkg(cal) == fnPkg(reset) && cal.Signature.Recv() != nil && namedOf(cal.Signature.Recv().Type()) == s.T {
+				for _, c2 := range Calls(cal) {
+					if n2 := callName(c2.Common()); strings.HasSuffix(n2, "removeFile") || strings.HasSuffix(n2, ").DeleteMany") {
+						deletes = true
+					}
+				}
+			}
+		}
 		for _, cl := range Calls(reset) {
 			n := callName(cl.Common())
 			if strings.HasSuffix(n, "removeFile") || strings.HasSuffix(n, ").DeleteMany") {
